@@ -330,6 +330,8 @@ func genC01(g *G, n int, out io.Writer, stream string) {
 			c = genC01Graph(g, i, true)
 		case "atoms":
 			c = genC01Atoms(g, i)
+		case "scopes":
+			c = genC01Scopes(g, i)
 		default:
 			c = genC01Graph(g, i, false)
 		}
@@ -357,4 +359,86 @@ func noInverse(p Path) Path {
 		}
 	}
 	return q
+}
+
+// Stream "scopes": two or three nested / quantified constraints over DIFFERENT paths, each wrapped in one of the connective
+// contexts (bare, not, if-part, then-part, else-part, inside and, inside or), combined by or / and / not-and / if-then /
+// if-then-else in both operand orders: every way two quantified variables can end up in one generated rule body.
+// Cardinality atoms only, so the classical reading is the specification on every graph.
+func genC01Scopes(g *G, id int) C01Case {
+	c := C01Case{Op: "c01", Id: id, Stream: "scopes"}
+	nA := 3
+	for j := 0; j < nA; j++ {
+		c.Atoms = append(c.Atoms, Atom{Kind: g.pick([]string{"minCount", "maxCount", "exactCount"}), Path: PP(g.pick(propPool), false), Arg: i64p(int64(g.n(3)))})
+	}
+	perm := g.r.Perm(len(propPool))
+	for k := 0; k < 3; k++ {
+		c.Paths = append(c.Paths, PP(propPool[perm[k%len(perm)]], g.coin(0.2)))
+	}
+	nested := func(k int) Rule {
+		inner := Rule{Atom: ip(g.n(nA))}
+		if g.coin(0.3) {
+			inner = Rule{Not: &Rule{Atom: inner.Atom}}
+		}
+		r := Rule{Nested: &inner, PathIx: ip(k)}
+		if g.coin(0.4) {
+			r.Q = &Quant{Op: g.pick([]string{"ge", "le", "eq"}), K: g.n(3)}
+		}
+		return r
+	}
+	wrap := func(r Rule) Rule {
+		a := Rule{Atom: ip(g.n(nA))}
+		b := Rule{Atom: ip(g.n(nA))}
+		switch g.n(8) {
+		case 0:
+			return Rule{Not: &r}
+		case 1:
+			return Rule{If: &r, Then: &a}
+		case 2:
+			return Rule{If: &a, Then: &r}
+		case 3:
+			return Rule{If: &a, Then: &b, Else: &r}
+		case 4:
+			return Rule{If: &r, Then: &a, Else: &b}
+		case 5:
+			return Rule{And: []Rule{a, r}}
+		case 6:
+			return Rule{Or: []Rule{r, a}}
+		}
+		return r
+	}
+	k := 2 + g.n(2)
+	var parts []Rule
+	for j := 0; j < k; j++ {
+		parts = append(parts, wrap(nested(j%3)))
+	}
+	g.r.Shuffle(len(parts), func(a, b int) { parts[a], parts[b] = parts[b], parts[a] })
+	var rule Rule
+	switch g.n(6) {
+	case 0:
+		rule = Rule{And: parts}
+	case 1:
+		inner := Rule{And: parts}
+		rule = Rule{Not: &inner}
+	case 2:
+		rule = Rule{If: &parts[0], Then: &parts[1]}
+		if len(parts) > 2 {
+			rule.Else = &parts[2]
+		}
+	case 3:
+		inner := Rule{Or: parts}
+		rule = Rule{Not: &inner}
+	default:
+		rule = Rule{Or: parts}
+	}
+	for branches(rule, false) > 60 {
+		parts = parts[:len(parts)-1]
+		rule = Rule{Or: parts}
+		if len(parts) < 2 {
+			break
+		}
+	}
+	c.Validations = []Validation{{Name: "v0", Class: NS + "T", Rule: rule}}
+	c.Graph = g.graph(3+g.n(4), 0.6)
+	return c
 }
